@@ -439,7 +439,7 @@ def check(tier):
     core.stage()
     rep = core.Report(PROP, ENGINE, tier, seed)
     rep.rule = ("%d compiled loop shapes (dict / keys / values / items, set, frozenset, list, tuple, str, bytes, bytearray, enumerate, reversed, range with 1-3 "
-                "arguments incl. C-typed bounds/steps/targets, reversed(range), loops that rebind the iterated name) whose body calls the simulator's hook; per case a seeded "
+                "arguments incl. C-typed bounds/steps/targets, reversed(range), reversed(bytearray), ranges whose bounds have different C widths / kinds with a target bound by the loop only, loops that rebind the iterated name) whose body calls the simulator's hook; per case a seeded "
                 "script tells the hook at which visit to mutate the container (insert, burst insert, delete visited/unvisited, replace value, clear, same-size replacement), "
                 "break, continue or raise. oracle vs CPython: visit sequence, exception type (message for RuntimeError), final loop variable(s), else clause, container after "
                 "the loop. 3 build cells. non-trivial = the hook mutated the container; distinct = (cell, case) digest" % len(LOOPS))
